@@ -2,6 +2,7 @@
 import pyModeS as pms
 from ref import frames, gillham
 from vlib import dual, variants
+from vlib import volume
 from vlib.core import Leg, call
 
 PROPERTY = "C08"
@@ -10,7 +11,7 @@ RULE = ("all 8192 identity patterns (A,B,C,D octal digits x X bit, exhaustive) t
         "FS(8) x DR(32) x IIS(16) x IDS(4) product on DF4 and DF5 with random remaining bits (surv.fs/dr/um); CA(8) x all 80 (CL,IC) codes and "
         "overlay values >= 80 on DF11 (allcall.capability/interrogator/icao); every DF 0..31 for the RuntimeError guards. Oracle: the encoded "
         "values. non-trivial = identity other than 0000/7777 patterns plus those explicitly, field value != 0, DF outside the accepted set"
-        ' Also: call history on the same string (helpers first, every call twice), one constant context per carrier, the un-guarded py_common.fs/dr/um copies on short and long replies.')
+        ' Also: call history on the same string (helpers first, every call twice), one constant context per carrier, the un-guarded py_common.fs/dr/um copies on short and long replies, more than 2^20 distinct frames in a row in one process (leg volume).')
 ASSUMPTIONS = ["identity interleave C1 A1 C2 A2 C4 A4 X B1 D1 B2 D2 B4 D4 (Annex 10) in ref/gillham.squawk_encode",
                "SI code = 16*(CL-1)+IC for CL 1-4, 'corrupt IC' above 79; description strings are not asserted, only their type",
                "frames are length-consistent: DF<16 -> 14 hex digits, DF>=16 -> 28"]
@@ -211,7 +212,26 @@ def chk_guards(case, note):
     return None
 
 
+
+# ---------------------------------------------------------------- volume: one process, very many distinct frames
+def vol_step(a, b, k):
+    df = 5 if a & 1 else 21
+    code = (a >> 2) & 8191
+    n = 56 if df == 5 else 112
+    body = (((a >> 15) & 16383) << 13) | code
+    if n == 112:
+        body = (body << 56) | (b >> 8)
+    msg = "%0*X" % (n // 4, (df << (n - 5)) | (body << 24) | ((a >> 29) & 0xFFFFFF))   # the parity field is not looked at: any 24 bits
+    if a & (1 << 60):
+        msg = msg.lower()
+    r = call(pms.common.idcode, msg)
+    if r != ("ok", digits(code)):
+        return "common.idcode(%s) -> %r, transmitted identity %s" % (msg, r, digits(code))
+    return None
+
+
 LEGS = [
+    volume.leg(vol_step, 1100000, 2400000, "1.1 million (thorough: 2.4 million per process) distinct DF5/21 frames through idcode() in one process"),
     Leg("squawk13", chk_squawk, enum=enum_squawk, exhaustive=True, doc="all 8192 identity patterns, Python and emulated Cython squawk()"),
     Leg("id_carriers", chk_idcar, enum=enum_idcar, exhaustive=True, doc="all 8192 patterns x DF5/DF21/TC28 x random contexts"),
     Leg("surv_fields", chk_surv, enum=enum_surv, exhaustive=True, doc="FS x DR x IIS x IDS product on DF4/5"),
